@@ -57,6 +57,15 @@ CHECKS = {
         "note": "Trusted: TLC; Go's comparison operators and strconv/conversions as the descriptor and value oracles.",
         "technique": "TLA+ tables with laws as TLC invariants; exhaustive pair evaluation of the real runtime against the tables",
     },
+    "C11": {
+        "text": ("For each base program the harness builds the variants function-body, module-body, IIFE-wrapped sub-expressions (single, all, "
+                 "and combined with function-body) and renaming. TLC evaluates base and variants with TengoSem and requires the variants' "
+                 "outcomes to equal the base's under the result mapping (the spec itself is placement invariant on these programs); every "
+                 "variant is then run on the real VM and must yield an outcome TengoSem allows, mapped back to the base's result."),
+        "design_ref": "DESIGN.md 8/C11",
+        "note": "Trusted: TLC; the AST transformations (checked per program by the model-level equality). Closures in global-scope loops are not generated.",
+        "technique": "TLA+ reference semantics evaluated on program variants (metamorphic relation checked on the model and on the real VM)",
+    },
     "C12": {
         "text": ("Dedup.tla transcribes RemoveDuplicates on abstract bytecode; TLC checks, for every small constant pool and reference layout, that "
                  "every reference of every loadable function still denotes an equal constant, no mergeable duplicates remain, nothing is lost, and "
